@@ -114,13 +114,14 @@ end Heap
 def emptyLay (D : Nat) : Layout := Layout.ofExts (List.replicate D ⟨0, 0⟩)
 
 /-- the positions `elements().begin()`, `++`, `++`, … visits (array_ref.hpp elements_range_t / elements_iterator_t),
-    `n` of them; `none` = the iterator constructor divides by zero -/
+    `n` of them; `none` = the iterator constructor or `operator++` divides by zero -/
 def elemAddrs (v : View) (n : Nat) : Option (List Int) :=
-  (ElemRange.ofView v).begin'.map (go n)
+  (ElemRange.ofView v).begin'.bind (go n)
 where
-  go : Nat → ElemIt → List Int
-    | 0, _ => []
-    | k + 1, it => it.current :: go k it.inc
+  /-- `*it`, `++it`, … `n` times (the copy loops increment after every element, the last increment reaches `end()`) -/
+  go : Nat → ElemIt → Option (List Int)
+    | 0, _ => some []
+    | k + 1, it => it.inc.bind fun it' => (go k it').map (it.current :: ·)
 
 namespace Arr
 
@@ -249,11 +250,11 @@ def copyElems (h : Heap α) (sb : Option BlockId) (sv : View) (db : Option Block
     | some ss, some ds => h.copyAddrs sb ss db ds
     | _, _ => h.setUB
 
-/-- `subarray::operator=` through `elements()` (array_ref.hpp:2062-2067, 2141-2145): `assert(extension() == other.extension())`,
+/-- `subarray::operator=` through `elements()` (array_ref.hpp:2062-2067, 2141-2145): `assert(extensions() == other.extensions())`,
     then `elements_range_t::operator=(OtherElementRange&&)` (1001-1013): `assert(size() == other.size());
     if(!is_empty()) adl_copy(begin(other), end(other), begin())`. -/
 def assignElems (h : Heap α) (sb : Option BlockId) (sv : View) (db : Option BlockId) (dv : View) : Heap α :=
-  let h := h.check (dv.ext.eqv sv.ext)
+  let h := h.check (Exts.eqv dv.exts sv.exts)
   let h := h.check (dv.numElements == sv.numElements)
   copyElems h sb sv db dv
 
@@ -326,7 +327,7 @@ def assignFill (h : Heap α) (self : Arr) (es : List Ext) (v : α) : Heap α × 
 
 /-- one step of `ref::assign(first)` = `adl_copy_n(first, size(), begin())` (array_ref.hpp:1998): `*dest = *first` for the
     `k`-th sub-array.  D = 1: an element assignment.  D > 1: `subarray::operator=(const_subarray const&) &&` (2141-2145):
-    `assert(extension() == other.extension())`, then `elements() = other.elements()`.  The source sub-array is given by its
+    `assert(extensions() == other.extensions())`, then `elements() = other.elements()`.  The source sub-array is given by its
     values `row` (canonical order); it has the extensions `inner` and is contiguous. -/
 def assignRow (h : Heap α) (self : Arr) (k : Nat) (inner : List Ext) (row : List α) : Heap α :=
   let dv := self.view.index (self.view.ext.first + Int.ofNat k)
@@ -335,7 +336,7 @@ def assignRow (h : Heap α) (self : Arr) (k : Nat) (inner : List Ext) (row : Lis
     | v :: _ => h.write self.base dv.base (some v)
     | [] => h
   | e :: _ =>
-    let h := h.check (dv.ext.eqv e && dv.numElements == Int.ofNat row.length)
+    let h := h.check (Exts.eqv dv.exts inner && dv.numElements == Int.ofNat row.length)
     if dv.isEmpty then h
     else match elemAddrs dv row.length with
       | none => h.setUB
